@@ -7,6 +7,7 @@ pub mod c04_meta;
 pub mod c05_queue;
 pub mod c06_failed;
 pub mod c07_history;
+pub mod c08_diff;
 pub mod c10_history;
 pub mod c11_saveload;
 pub mod c23_bloom;
@@ -31,6 +32,8 @@ pub fn registry() -> Vec<Box<dyn Check>> {
         Box::new(c05_queue::C05),
         Box::new(c06_failed::C06),
         Box::new(c07_history::C07),
+        Box::new(c08_diff::C08),
+        Box::new(c08_diff::C09),
         Box::new(c10_history::C10),
         Box::new(c11_saveload::C11),
         Box::new(c11_saveload::C12),
